@@ -1609,7 +1609,9 @@ func ruleGather(c *Ctx, prop string) {
 			switch {
 			case len(cl.Common().Args) == 2 && strings.Contains(sc.Name(), "Offset"):
 				offsetCall = cl
-			case len(cl.Common().Args) == 4 && fnPkgPath(sc) == pkgOpset13 && sc.Signature.Results().Len() == 1 && isErrorType(sc.Signature.Results().At(0).Type()):
+			case len(cl.Common().Args) >= 4 && len(cl.Common().Args) <= 6 && fnPkgPath(sc) == pkgOpset13 && sc.Signature.Results().Len() == 1 && isErrorType(sc.Signature.Results().At(0).Type()) &&
+				isTensorish(sc.Signature.Params().At(0).Type()) && isTensorish(sc.Signature.Params().At(1).Type()) && isTensorish(sc.Signature.Params().At(2).Type()):
+				// (output, data, indices, axis) and possibly values the caller has at hand already (the rank)
 				elemCall = cl
 			case len(cl.Common().Args) == 3 && sc.Signature.Results().Len() == 1 && fnPkgPath(sc) == pkgOpset13:
 				if _, isSl := sc.Signature.Results().At(0).Type().Underlying().(*types.Slice); isSl {
@@ -1637,7 +1639,14 @@ func ruleGather(c *Ctx, prop string) {
 		ok := strings.HasPrefix(t0, "Shape(") && !strings.Contains(t0, "P1[0]") && t1 == "Shape(P1[0])" && hasAxis(t2)
 		why := fmt.Sprintf("the output shape is built from (%s, %s, %s) instead of (indices.shape, data.shape, axis)", t0, t1, t2)
 		if ok {
-			if w := checkInsertWithReplace(insCall.Common().StaticCallee()); w != "" {
+			w := checkInsertWithReplace(insCall.Common().StaticCallee())
+			if w != "" {
+				// the structural reading is one spelling; the contract itself is decided by table
+				if known, tw := c.insertWithReplaceTable(insCall.Common().StaticCallee()); known {
+					w = tw
+				}
+			}
+			if w != "" {
 				ok, why = false, "the list helper "+fname(insCall.Common().StaticCallee())+" is not x[:axis] ++ a ++ x[axis+1:]: "+w
 			}
 		}
@@ -1890,4 +1899,68 @@ func (c *Ctx) linAxisLen(v, A ssa.Value, depth int) ([3]int64, bool) {
 		return [3]int64{l[0] - r[0], l[1] - r[1], l[2] - r[2]}, true
 	}
 	return [3]int64{}, false
+}
+
+// insertWithReplaceTable walks a list helper h(a, x, axis) over small lists: the result must be
+// x[:axis] ++ a ++ x[axis+1:] for every a of length 0..2, x of length 1..4 and axis in [0, len(x)).
+func (c *Ctx) insertWithReplaceTable(f *ssa.Function) (known bool, bad string) {
+	if f == nil || len(f.Params) != 3 || len(f.Blocks) == 0 {
+		return false, ""
+	}
+	cov := newCover(f)
+	for la := 0; la <= 2; la++ {
+		for lx := 1; lx <= 4; lx++ {
+			for axis := 0; axis < lx; axis++ {
+				heap := newHeap()
+				a, x := make([]pval, la), make([]pval, lx)
+				var want []int64
+				for i := range x {
+					x[i] = pval{k: pInt, i: int64(10 + i)}
+				}
+				for i := range a {
+					a[i] = pval{k: pInt, i: int64(-1 - i)}
+				}
+				for i := 0; i < axis; i++ {
+					want = append(want, x[i].i)
+				}
+				for i := range a {
+					want = append(want, a[i].i)
+				}
+				for i := axis + 1; i < lx; i++ {
+					want = append(want, x[i].i)
+				}
+				p := &pinterp{c: c, budget: 20000, cover: cov, objects: true}
+				res, h := p.run(f, []pval{heap.alloc(a), heap.alloc(x), {k: pInt, i: int64(axis)}}, 0, heap)
+				if p.aborted || len(res) != 1 || h == nil {
+					return false, ""
+				}
+				var got []pval
+				switch res[0].k {
+				case pList:
+					got = h.lists[res[0].i]
+					if got == nil {
+						return false, ""
+					}
+				case pNil:
+				default:
+					return false, ""
+				}
+				gi := make([]int64, len(got))
+				for i, e := range got {
+					if e.k != pInt {
+						return false, ""
+					}
+					gi[i] = e.i
+				}
+				if fmtInts(gi) != fmtInts(want) {
+					return true, fmt.Sprintf("a = %d entries, x = %d entries, axis %d gives %s instead of %s", la, lx, axis, fmtInts(gi), fmtInts(want))
+				}
+			}
+		}
+	}
+	if unc := cov.uncovered(c); len(unc) > 0 {
+		c.declined("list helper table of "+fname(f), unc)
+		return false, ""
+	}
+	return true, ""
 }
